@@ -201,9 +201,10 @@ CONTRACTS = [
                   "whatever it raises (BadNonce, CryptoError, ValueError, BadHandshake, ...) the connection is dropped exactly once "
                   "and the state becomes 'hung up'; only BadHandshake is swallowed"),
     Contract(T + "Connection.connectConsumer", props=[PROP], params={"consumer": "obj[Consumer]", "expected": "opt[int]"},
-             self_fields={**F_QUEUES, **F_CONSUMER}, modifies=M_QUEUES + M_CONSUMER,
+             self_fields={**F_QUEUES, **F_CONSUMER}, modifies=M_QUEUES + M_CONSUMER, returns=f"opt[{DEFERRED}]",
              raises_exactly={"RuntimeError": "self._consumer is not None"},
-             ensures=[("queued-records-drained-before-live-ones", f"self._consumer is None or len({R}) == 0"),
+             ensures=[("a-deferred-is-returned-iff-a-byte-count-is-expected", "(result is None) == (expected is None)"),
+                      ("queued-records-drained-before-live-ones", f"self._consumer is None or len({R}) == 0"),
                       ("reads-untouched", f"{W} == old({W})"),
                       ("consumer-invariant-kept", INV_CONSUMER)],
              internal_ensures=[("drained-in-queue-order", f"old({R}) == gw + {R}"),
@@ -236,6 +237,99 @@ CONTRACTS = [
                    "the transport may then deliver a chunk, and recordReceived() runs re-entrantly (modelled: zero or one live "
                    "record arrives during registerProducer; recordReceived/_writeToConsumer are executed, not summarised). "
                    "Nothing may reach the consumer before the drain loop except the zero-length kick for expected == 0 (w0)"),
+
+    # ------------------------------------------------------------------ consumer plumbing: file sink, detach, pass-throughs
+    Contract(T + "Connection._writeToConsumer", props=[PROP], params={"record": "bytes"},
+             self_fields=dict(F_CONSUMER), requires=["self._consumer is not None", INV_CONSUMER], modifies=M_CONSUMER,
+             ensures=[("byte-count-advances-by-the-record", "self._consumer_bytes_written == old(self._consumer_bytes_written) + len(record)"),
+                      ("never-detached-without-an-expected-count",
+                       "implies(old(self._consumer_bytes_expected) is None, self._consumer is not None)"),
+                      ("detached-exactly-when-the-expected-count-is-reached",
+                       "implies(old(self._consumer_bytes_expected) is not None, (self._consumer is None) == "
+                       "(old(self._consumer_bytes_written) + len(record) >= old(self._consumer_bytes_expected)))"),
+                      ("detaching-clears-target-and-deferred-together",
+                       "implies(self._consumer is None, self._consumer_bytes_expected is None and self._consumer_deferred is None)"),
+                      ("still-attached-keeps-target-and-deferred",
+                       "implies(self._consumer is not None, self._consumer is old(self._consumer) and "
+                       "self._consumer_bytes_expected == old(self._consumer_bytes_expected) and "
+                       "self._consumer_deferred == old(self._consumer_deferred))")],
+             internal_ensures=[
+                 ("record-written-whole-exactly-once-first",
+                  "bcalls('write') == 1 and bcall_names()[0] == 'write' and bcall_arg('write', 0, 0) == record"),
+                 ("reaching-the-count-unregisters-then-fires-the-deferred-with-the-byte-count",
+                  "implies(self._consumer is None, bcall_names() == ['write', 'unregisterProducer', 'callback'] and "
+                  "bcall_arg('callback', 0, 0) == old(self._consumer_deferred) and "
+                  "bcall_arg('callback', 0, 1) == old(self._consumer_bytes_written) + len(record))"),
+                 ("otherwise-nothing-else", "implies(self._consumer is not None, bcall_names() == ['write'])")],
+             note="disconnectConsumer is used through its contract (below)"),
+    Contract(T + "Connection.disconnectConsumer", props=[PROP], params={}, self_fields=dict(F_CONSUMER),
+             raises_exactly={"AttributeError": "self._consumer is None"},
+             modifies=["_consumer", "_consumer_bytes_expected", "_consumer_deferred"],
+             ensures=[("consumer-fields-reset", "self._consumer is None and self._consumer_bytes_expected is None and "
+                                                "self._consumer_deferred is None")],
+             effects=[("unregisterProducer", [])],
+             ensures_raise={"AttributeError": [("nothing-touched", "len(bcall_names()) == 0 and self._consumer_bytes_expected == "
+                                                "old(self._consumer_bytes_expected) and self._consumer_deferred == old(self._consumer_deferred)")]},
+             note="also the application's call after connectConsumer(expected=None): the consumer is unregistered exactly once and "
+                  "all three consumer fields are cleared together (the byte counter is kept: frame), so later records queue again"),
+    Contract(T + "Connection.writeToFile", props=[PROP],
+             params={"f": "obj[File]", "expected": "opt[int]", "progress": "opt[obj[ProgressFn]]", "hasher": "opt[obj[HasherFn]]"},
+             self_fields={**F_QUEUES, **F_CONSUMER}, modifies=M_QUEUES + M_CONSUMER, returns=f"opt[{DEFERRED}]",
+             raises_exactly={"RuntimeError": "self._consumer is not None"},
+             ensures=[("a-deferred-is-returned-iff-a-byte-count-is-expected", "(result is None) == (expected is None)")],
+             internal_ensures=[
+                 ("one-FileConsumer-over-exactly-these-collaborators-is-attached-for-expected-bytes",
+                  "n_calls('connectConsumer') == 1 and call_arg('connectConsumer', 0, 2) == expected and "
+                  "exc_class(call_arg('connectConsumer', 0, 1)) == 'FileConsumer' and "
+                  "call_arg('connectConsumer', 0, 1)._f is f and call_arg('connectConsumer', 0, 1)._progress is progress and "
+                  "call_arg('connectConsumer', 0, 1)._hasher is hasher and call_arg('connectConsumer', 0, 1)._producer is None"),
+                 ("its-result-is-returned", "result is iter_call_result('connectConsumer', 0)"),
+                 ("nothing-written-here", "len(bcall_names()) == 0")],
+             ensures_raise={"RuntimeError": [("nothing-written", "len(bcall_names()) == 0")]},
+             note="connectConsumer by contract; FileConsumer.__init__ is executed"),
+    Contract(T + "FileConsumer.write", props=[PROP], params={"bytes": "bytes"},
+             self_fields={"_f": "obj[File]", "_progress": "opt[obj[ProgressFn]]", "_hasher": "opt[obj[HasherFn]]",
+                          "_producer": "opt[obj[Connection]]"},
+             internal_ensures=[
+                 ("exactly-these-bytes-written-to-the-file-once-first",
+                  "bcalls('write') == 1 and bcall_names()[0] == 'write' and bcall_arg('write', 0, 0) == bytes"),
+                 ("progress-told-the-length-once-iff-given",
+                  "fcalls('ProgressFn') == ite(self._progress is None, 0, 1) and "
+                  "implies(self._progress is not None, fcall_arg('ProgressFn', 0, 0) == len(bytes))"),
+                 ("hasher-fed-the-same-bytes-once-iff-given",
+                  "fcalls('HasherFn') == ite(self._hasher is None, 0, 1) and "
+                  "implies(self._hasher is not None, fcall_arg('HasherFn', 0, 0) == bytes)"),
+                 ("nothing-else", "len(bcall_names()) == 1 + fcalls('ProgressFn') + fcalls('HasherFn')")],
+             note="the file receives each record's bytes exactly once, in call order (one write per call, and "
+                  "_writeToConsumer / the drain loop call it in record order); the hash is over the same bytes"),
+    Contract(T + "FileConsumer.registerProducer", props=[PROP], params={"producer": "obj[Connection]", "streaming": "bool"},
+             self_fields={"_producer": "opt[obj[Connection]]"}, modifies=["_producer"],
+             raises_exactly={"AssertionError": "self._producer is not None or not streaming"},
+             ensures=[("producer-recorded", "self._producer is producer")], effects=[]),
+    Contract(T + "FileConsumer.unregisterProducer", props=[PROP], params={},
+             self_fields={"_producer": "opt[obj[Connection]]"}, modifies=["_producer"],
+             raises_exactly={"AssertionError": "self._producer is None"},
+             ensures=[("producer-forgotten", "self._producer is None")], effects=[]),
+    Contract(T + "Connection.registerProducer", props=[PROP], params={"producer": "obj[Producer]", "streaming": "bool"},
+             self_fields={"transport": "obj[Transport]"},
+             raises_exactly={"AssertionError": "not self.transport.is_consumer"},
+             effects=[("registerProducer", ["producer", "streaming"])],
+             ensures_raise={"AssertionError": [("nothing-forwarded", "len(bcall_names()) == 0")]}),
+    Contract(T + "Connection.unregisterProducer", props=[PROP], params={}, self_fields={"transport": "obj[Transport]"},
+             effects=[("unregisterProducer", [])]),
+    Contract(T + "Connection.stopProducing", props=[PROP], params={}, self_fields={"transport": "obj[Transport]"},
+             effects=[("stopProducing", [])]),
+    Contract(T + "Connection.pauseProducing", props=[PROP], params={}, self_fields={"transport": "obj[Transport]"},
+             effects=[("pauseProducing", [])]),
+    Contract(T + "Connection.resumeProducing", props=[PROP], params={}, self_fields={"transport": "obj[Transport]"},
+             effects=[("resumeProducing", [])]),
+    Contract(T + "Connection.write", props=[PROP], params={"data": "bytes"}, self_fields=dict(F_TX),
+             requires=["self.send_nonce >= 0", "len(data) < 2**32 - 40"],
+             raises_exactly={"AssertionError": "self.send_nonce >= 2**192"}, modifies=["send_nonce"],
+             ensures=[("nonce-used-once", "self.send_nonce == old(self.send_nonce) + 1")],
+             internal_ensures=[("one-record-per-write-same-bytes", "n_calls('send_record') == 1 and call_arg('send_record', 0, 1) == data")],
+             note="IConsumer.write on the sending side (a FileSender writes to the Connection): one record per write; the bytes "
+                  "on the wire are send_record's effects (by contract)"),
     # ------------------------------------------------------------------ keys: one per direction, same on both ends
     Contract(T + "Common._sender_record_key", props=[PROP], params={}, self_fields={"is_sender": "bool", "_transit_key": "bytes"},
              returns="bytes", raises_exactly={"AssertionError": "len(self._transit_key) == 0"},
@@ -357,6 +451,104 @@ CONTRACTS = [
 ]
 
 
+# ---------------------------------------------------------------------------------------------------------------
+# The induction over the stream, machine-checked.  One step = one complete frame at the head of the unconsumed
+# stream (lemma:frame_incomplete covers "no complete frame yet": nothing delivered, nothing consumed; the
+# dataReceivedRECORDS loop invariant chains the steps within a chunk, lemma:records_state_parses_frames across chunks).
+# The hypotheses are clauses of the verified contracts / lemmas above, looked up BY NAME and restated over ghost
+# values by the substitutions given here; a weakened or renamed clause breaks the lemma.
+def _c6(target):
+    for c in CONTRACTS:
+        if c.target.endswith(target):
+            return c
+    raise KeyError(target)
+
+
+def _sub(e, subst):
+    import re as _re
+    for a, b in subst:
+        e = _re.sub(a, b, e)
+    return e
+
+
+def clause6(target, name, subst):
+    c = _c6(target)
+    return _sub(dict(c.ensures + c.internal_ensures)[name], subst)
+
+
+def body_clause6(target, text, subst):
+    c = _c6(target)
+    assert text in c.loops[0]["body_ensures"], f"{target}: loop body clause no longer stated: {text}"
+    return _sub(text, subst)
+
+
+def lemma_as_hypothesis(target, req_subst, ens_subst):
+    """a verified lemma as an implication: all its requires => all its ensures"""
+    c = _c6(target)
+    return "implies(" + " and ".join("(" + _sub(r, req_subst) + ")" for r in c.requires) + ", " + \
+        " and ".join("(" + _sub(e, ens_subst) + ")" for _, e in c.ensures) + ")"
+
+
+_SR = _c6("Connection.send_record")
+_W0 = _sub(_SR.effects[0][1][0], [(r"\brecord\b", "recs[j]")])
+_W1 = _sub(_SR.effects[1][1][0], [(r"self\.send_box\.key", "key"), (r"old\(self\.send_nonce\)", "j"), (r"\brecord\b", "recs[j]")])
+_INV = "0 <= {k} and {k} <= len(recs) and len({d}) == {k} and forall(lambda i: implies(0 <= i and i < {k}, {d}[i] == recs[i]))"
+
+CONTRACTS.append(Contract(
+    "lemma:stream_induction_step", props=[PROP], source_module=T_PY,
+    params={"recs": "seq[bytes]", "key": "bytes", "j": "int", "w0": "bytes", "w1": "bytes", "rest": "bytes", "first": "bytes",
+            "after_first": "bytes", "k0": "int", "k1": "int", "d0": "seq[bytes]", "d1": "seq[bytes]", "plain": "bytes",
+            "rejected": "bool", "n_rr": "int", "handed": "bytes"},
+    source_text="""
+    def stream_induction_step(recs, key, j, w0, w1, rest, first, after_first, k0, k1, d0, d1, plain, rejected, n_rr, handed):
+        return None
+    """,
+    requires=[
+        # induction hypothesis: after the stream consumed so far exactly recs[:k0] were delivered, in order; counter == k0
+        _INV.format(k="k0", d="d0"),
+        # the next bytes of the stream are what the sender's j-th send_record wrote (its effects, by name), then anything
+        "0 <= j and j < len(recs) and j < 2**192 and len(recs[j]) < 2**32 - 40",
+        f"w0 == ({_W0})", f"w1 == ({_W1})",
+        # lemma:frame_roundtrip (real loop body): such a buffer yields exactly that frame and leaves exactly the rest
+        lemma_as_hypothesis("lemma:frame_roundtrip",
+                            [(r"self\._consumer_bytes_expected is None or self\._consumer_deferred is not None", "True"),
+                             (r"self\.buf", "(w0 + w1 + rest)"), (r"\bc\b", "w1")],
+                            [(r"k >= 1 and ", ""), (r"\bc\b", "w1")]),
+        # the frame handed to _decrypt_record is that first frame; its result is what recordReceived gets (loop body clauses)
+        # lemma:honest_record_is_accepted_unchanged / lemma:out_of_order_record_is_rejected, instantiated at this frame
+        "implies(first == w1, " +
+        lemma_as_hypothesis("lemma:honest_record_is_accepted_unchanged",
+                            [(r"\bn\b", "j"), (r"rx\.next_receive_nonce", "k0")],
+                            [(r"\bresult\b", "(not rejected and plain)"), (r"\brecord\b", "recs[j]"), (r"\bn\b", "j"),
+                             (r"rx\.next_receive_nonce", "k1")]).replace("(not rejected and plain) == recs[j]",
+                                                                        "not rejected and plain == recs[j]") + ")",
+        "implies(first == w1, " +
+        lemma_as_hypothesis("lemma:out_of_order_record_is_rejected",
+                            [(r"\bm\b", "j"), (r"rx\.next_receive_nonce", "k0")],
+                            [(r"\bresult\b", "rejected"), (r"old\(rx\.next_receive_nonce\)", "k0"),
+                             (r"rx\.next_receive_nonce", "k1")]) + ")",
+        # dataReceivedRECORDS: an accepted frame's plaintext goes to recordReceived exactly once, unchanged; a rejected
+        # one is not delivered (ensures_raise) - d1 is the ghost list of records handed to recordReceived
+        "implies(not rejected, n_rr == 1 and " +
+        body_clause6("Connection.dataReceivedRECORDS", "iter_call_arg('recordReceived', 0, 1) == iter_call_result('_decrypt_record', 0)",
+                     [(r"iter_call_arg\('recordReceived', 0, 1\)", "handed"), (r"iter_call_result\('_decrypt_record', 0\)", "plain")]) + ")",
+        "implies(rejected, " + _sub(dict(_c6("Connection.dataReceivedRECORDS").ensures_raise["BadNonce"])["failing-frame-not-delivered"],
+                                    [(r"iter_n_calls\('recordReceived'\)", "n_rr")]) + ")",
+        "implies(n_rr == 1, d1 == d0 + [handed])", "implies(n_rr == 0, d1 == d0)"],
+    ensures=[("the-written-bytes-are-a-frame-of-the-parser", "len(w1) == len(recs[j]) + 40 and w0 == be_enc(len(w1), 4) and len(w1) < 2**32"),
+             ("the-next-record-in-order-is-delivered-unchanged", "implies(j == k0, d1 == d0 + [recs[k0]] and k1 == k0 + 1)"),
+             ("anything-else-is-rejected-and-nothing-is-delivered", "implies(j != k0, rejected and d1 == d0 and k1 == k0)"),
+             ("induction-hypothesis-re-established.count", "0 <= k1 and k1 <= len(recs) and len(d1) == k1 and k1 >= k0"),
+             ("induction-hypothesis-re-established.delivered-are-the-first-k-sent-in-order",
+              "forall(lambda i: implies(0 <= i and i < k1, d1[i] == recs[i]))")],
+    note="inductive step of 'k-th record received == k-th record sent': whichever genuine frame comes next (the expected one, "
+         "a duplicate, a skipped-ahead or an older one), afterwards the delivered list is again exactly recs[:k1], k1 >= k0; "
+         "a rejected frame raises, and dataReceived (any-exception-drops-the-connection) then hangs up, after which "
+         "lemma:hung_up_is_silent applies.  A frame that is not genuine at all fails _decrypt_record (CryptoError / BadNonce "
+         "by its raises_exactly) the same way"))
+CONTRACTS[-1].qf_feasibility = True
+
+
 ALL_CONN_FIELDS = ["state", "buf", "next_receive_nonce", "receive_box", "send_nonce", "send_box", "_negotiation_d", "_error"] \
     + M_QUEUES + M_CONSUMER
 
@@ -383,6 +575,24 @@ def regf(exclude=()):
         return VList([VStr(e[1][0].split(".")[-1]) for e in tr[start + 1:] if e[0] == "call"])
 
     sf["call_order_iter"] = call_order_iter
+
+    # callables handed in by the application (progress / hasher): calling one is a boundary event ("bcall", <type name>, "__call__")
+    def _fcalls(it, cls):
+        cls = it.concrete(cls)
+        return [e for e in it.ctx.trace if e[0] == "bcall" and e[1][0] == cls and e[1][1] == "__call__"]
+
+    sf["fcalls"] = lambda it, cls: VInt(len(_fcalls(it, cls)))
+
+    def fcall_arg(it, cls, k, i):
+        evs = _fcalls(it, cls)
+        k, i = it.concrete(k), it.concrete(i)
+        return evs[k][1][2][i] if k < len(evs) else NONE
+
+    sf["fcall_arg"] = fcall_arg
+    # IConsumer.providedBy(transport): a fact about the transport object (ghost field), nothing the Connection decides
+    reg.class_fields["Transport"] = {"is_consumer": "bool"}
+    reg.ext_models["twisted.internet.interfaces.IConsumer.providedBy"] = \
+        lambda it, args, kw: it.force(it.force(args[0]).fields["is_consumer"])
     return reg
 
 
@@ -413,8 +623,22 @@ def regf_reentrant():
     return reg
 
 
+# contracts added after the callers below were verified with the real bodies of _writeToConsumer / disconnectConsumer
+# inlined: those callers keep executing the real bodies (regf_inline); the new contracts are verified on their own and
+# used modularly by the new callers (_writeToConsumer -> disconnectConsumer, writeToFile -> connectConsumer)
+LEAF = (T + "Connection._writeToConsumer", T + "Connection.disconnectConsumer")
+
+
+def regf_inline():
+    return regf(exclude=LEAF)
+
+
 def tasks():
-    return [ContractTask(c, regf_reentrant if c.target == REENTRANT else regf) for c in CONTRACTS]
+    new = set(LEAF) | {T + "Connection.writeToFile", T + "Connection.write"}
+    from pyvc.runner import FuncTask
+    from .transit_lib import be_definitional_task
+    return [ContractTask(c, regf_reentrant if c.target == REENTRANT else (regf if c.target in new else regf_inline))
+            for c in CONTRACTS] + [FuncTask("be-definitional", be_definitional_task, True, "lemma")]
 
 
 TRUSTED = TRUSTED_LIB
@@ -429,11 +653,20 @@ ASSUMPTIONS = [
     "send_record is verified for len(record) < 2**32 - 40 only: for 2**32-40 <= len(record) < 2**32 the code's own assert passes "
     "but the 4-byte length field overflows (unhexlify('%08x' % len) raises binascii.Error after the nonce was consumed); "
     "reproduced natively with a length-faking bytes subclass, reported, not a C06 violation (nothing is sent)",
-    "end-to-end composition (k-th record received == k-th record sent for a whole stream) is the chain send_record.effects -> "
-    "lemma:frame_roundtrip / frame_incomplete -> dataReceivedRECORDS loop invariant (record boundaries depend on the stream only) "
-    "-> lemma:honest_record_is_accepted_unchanged / out_of_order_record_is_rejected -> recordReceived/_deliverRecords FIFO; each "
-    "link is discharged, the induction over the stream that joins them is the loop invariant, not a separate obligation",
+    "end-to-end composition (k-th record received == k-th record sent for a whole stream): the inductive step is "
+    "lemma:stream_induction_step, machine-checked, with hypotheses imported by name from send_record.effects, "
+    "lemma:frame_roundtrip, lemma:honest_record_is_accepted_unchanged / out_of_order_record_is_rejected and the "
+    "dataReceivedRECORDS loop-body / ensures_raise clauses (textual substitution of trace terms by ghost values: clause6 / "
+    "lemma_as_hypothesis in props/c06.py, part of the trusted reading).  Still argued, not one obligation: the outer induction "
+    "over the frames of the stream (its steps are chained by the dataReceivedRECORDS loop invariant within a chunk and by "
+    "lemma:records_state_parses_frames / frame_incomplete across chunks), and the hand-over from 'handed to recordReceived in "
+    "order' to 'obtained by the application in order' (recordReceived / _deliverRecords / receive_record FIFO contracts, "
+    "_writeToConsumer / FileConsumer.write for consumer mode)",
     "_dataReceived is used by dataReceived through an over-approximating contract (any exception, any field); its precise "
     "contract is verified under C07",
-    "writeToFile/FileConsumer, disconnectConsumer called by the application, registerProducer pass-throughs: not under contract",
+    "FileConsumer.write: the file object, the progress callable and the hasher callable are boundaries (recorded calls); that "
+    "f.write() stores the bytes is the file's business.  Connection.registerProducer: whether the transport provides IConsumer is "
+    "a ghost fact about the transport (zope providedBy is not executed)",
+    "not under contract: Connection.__init__ / connectionMade / startNegotiation / _cancel / the handshake states (C07), "
+    "the Transit* factories; application callbacks run by Deferred.callback (see the re-entrancy assumption above)",
 ]
